@@ -23,11 +23,13 @@ REQUIRED = {
     "quick": {"halts": 150, "class/run_with_2plus_halts": 20, "class/halt_cut_by_session_end": 10,
               "class/acceptance_during_halt": 300, "class/resumed_on_schedule": 80, "running_flag_checks": 5000,
               "rounds_on_targets_judged": 2000, "class/forced_round_on_stopped_market": 30,
-              "class/line_not_crossed_rounds": 1000, "class/exactly_on_the_line_decidable": 3},
+              "class/line_not_crossed_rounds": 1000, "class/exactly_on_the_line_decidable": 3,
+              "class/price_beyond_plus_100pct_below_the_line": 5},
     "thorough": {"halts": 5000, "class/run_with_2plus_halts": 600, "class/halt_cut_by_session_end": 300,
                  "class/acceptance_during_halt": 9000, "class/resumed_on_schedule": 2500,
                  "running_flag_checks": 150000, "rounds_on_targets_judged": 60000,
-                 "class/forced_round_on_stopped_market": 900, "class/line_not_crossed_rounds": 30000, "class/exactly_on_the_line_decidable": 90},
+                 "class/forced_round_on_stopped_market": 900, "class/line_not_crossed_rounds": 30000, "class/exactly_on_the_line_decidable": 90,
+                 "class/price_beyond_plus_100pct_below_the_line": 150},
 }
 
 
@@ -103,6 +105,22 @@ def gen_case(rng, tier, idx):
         for m in mk:
             cfg[m]["tickSize"] = rng.choice([1.0, 0.5])
             cfg[m]["marketPrice"] = rng.choice([128.0, 256.0, 512.0])
+    if rng.random() < 0.15:
+        # large moves: the line is a large fraction (or a multiple) of the time-0 price and the price runs far above
+        # it, so that several halts pile up and the line passes +100 %
+        for j in range(len(rules)):
+            cfg["HALT%d" % j]["triggerChangeRate"] = rng.choice([0.25, 0.5, 0.5, 1.0, 1.5, 0.3, 0.7])
+            cfg["HALT%d" % j]["haltingTimeLength"] = rng.choice([0, 1, 2])
+        far = [0.3, 0.6, 1.2, 1.4, 1.6, 1.9, 2.0, 2.1, 2.3, 2.4, 2.6, 2.9, 3.1, 3.6, 4.2]
+        for k, v in cfg.items():
+            if isinstance(v, dict) and "program" in v:
+                v["program"]["actions"].append([8, {"a": "limit", "side": "any", "ref": "p0", "mult": far,
+                                                    "vol": [1, 3], "ttl": [2, 5]}])
+        for s_ in cfg["simulation"]["sessions"]:
+            s_["iterationSteps"] = max(s_["iterationSteps"], 25)
+    from ..runnerdrive import add_first_attempts
+
+    add_first_attempts(rng, cfg, 0.15)
     return {"drive": "runner", "seed": rng.randrange(1 << 31), "config": cfg, "profile": "halt"}
 
 
@@ -264,6 +282,8 @@ class C16Monitor:
                     break
                 else:
                     res.count("class/line_not_crossed_rounds")
+                    if dev >= p0 > 0:
+                        res.count("class/price_beyond_plus_100pct_below_the_line")
 
     def finish(self):
         if self.n_halts >= 2:
